@@ -85,6 +85,21 @@ def run(ctx: core.Check):
         if len(tr.events) > 60000:
             toolrun.report(ctx, tr, module="Encrypt_Trace", label="iv-history", keyfn=lambda b, s: f"{b['clause']}:{s['history']}")
             tr = toolrun.Trace()
+    # the CLI entry function (imports the encrypt script anew on every call, writes the four files)
+    from suit_generator import cmd_encrypt
+    h = History(tr, key, "cmd_encrypt.main/files")
+    fw = d / "fw.bin"
+    for i in range(120 if ctx.quick else 3000):
+        pt = b"constant firmware image" if i % 2 else b"firmware %d" % i
+        fw.write_bytes(pt)
+        od = d / "encout"
+        od.mkdir(exist_ok=True)
+        cmd_encrypt.main(encrypt_subcommand="encrypt-and-generate", firmware=fw, key_name="fwenc", key_id=9, context=str(d / "keys"),
+                         hash_alg="sha-256", kw_alg="direct", kms_script=kms, encrypt_script=es, output_dir=od)
+        h.add(pt, (od / "suit_encryption_info.bin").read_bytes(), (od / "encrypted_content.bin").read_bytes())
+        total += 1
+        if i:
+            ctx.nontriv(("cmd", i))
     ctx.sample({"history": "same-plaintext/one-object", "events": tr.events[:4]})
     # cross-process histories
     procs = 24 if ctx.quick else 2000
